@@ -248,3 +248,21 @@ package interp
 //@   ensures bool-value-defaults-to-bool: old(t.untyped) && known && kind == constant.Bool ==> r == sc.getType("bool")
 //@   ensures without-a-value-the-category-decides: old(t.untyped) && !known && (old(t.cat) == intT || old(t.cat) == float64T || old(t.cat) == complex128T || old(t.cat) == stringT || old(t.cat) == boolT) ==> r == sc.getType(ite(old(t.cat) == intT, "int", ite(old(t.cat) == float64T, "float64", ite(old(t.cat) == complex128T, "complex128", ite(old(t.cat) == stringT, "string", "bool")))))
 //@   canary r == t
+
+// A comparison of two untyped constants is a constant (Go spec, Constant expressions): it is folded with
+// go/constant's Compare under the token of the operator, operands in order — so that `const ok = 1 < 2`
+// has the value true.  Operands of kinds that cannot be compared with the operator are left to the type
+// check and the run-time closure.
+//@ pred cmpAction(a): a == aEqual || a == aNotEqual || a == aLower || a == aLowerEqual || a == aGreater || a == aGreaterEqual
+//@ pred k0(n): constKind(vConstantValue(n.child[0].rval))
+//@ pred k1(n): constKind(vConstantValue(n.child[1].rval))
+//@ pred foldable(n): k0(n) != constant.Unknown && k1(n) != constant.Unknown && (k0(n) == constant.String) == (k1(n) == constant.String) && (k0(n) == constant.Bool) == (k1(n) == constant.Bool) && (k0(n) == constant.Bool || k0(n) == constant.Complex || k1(n) == constant.Complex ==> n.action == aEqual || n.action == aNotEqual)
+//@ func compareConst(n)
+//@   props C03
+//@   opt safety = off
+//@   opt opaque-calls = *
+//@   opt opaque-havoc = none
+//@   requires [assume] n != nil && len(n.child) == 2 && n.child[0] != nil && n.child[1] != nil && n.child[0].rval.IsValid() && n.child[1].rval.IsValid()
+//@   ensures comparison-of-two-constants-is-folded: cmpAction(n.action) && old(bothConst(n)) && old(foldable(n)) ==> n.rval.IsValid() && rvBool(n.rval) == constCompare(old(c0v(n)), constCmp[n.action], old(c1v(n)))
+//@   ensures anything-else-is-left-alone: !(cmpAction(n.action) && old(bothConst(n)) && old(foldable(n))) ==> n.rval == old(n.rval)
+//@   canary cmpAction(n.action) && old(bothConst(n)) && old(foldable(n)) ==> rvBool(n.rval) == constCompare(old(c1v(n)), constCmp[n.action], old(c0v(n)))
